@@ -36,22 +36,25 @@ Theorem C07_matches_spec : forall ns r s a m b,
 Proof. exact matches_spec. Qed.
 Print Assumptions C07_matches_spec.
 
-(* in every state reachable by AddMatch / RemoveMatch / disconnect histories, a broadcast signal that is
-   dispatched without a Fault goes exactly once to exactly the connections holding a rule that matches
-   according to the specification *)
-Theorem C07_broadcast_delivery : forall limit mk ns c m l,
+(* in every state reachable by AddMatch / RemoveMatch / disconnect histories, a broadcast signal goes exactly
+   once to exactly the connections that hold a rule matching according to the specification AND can take the
+   message: it carries no unix fds ([nfds] = 0) or they negotiated fd passing ([caps]).  A listener that is
+   skipped for lack of fd passing has no influence on any other listener (the right-hand side speaks about x only). *)
+Theorem C07_broadcast_delivery : forall limit mk ns caps c m nfds l,
   reachable limit mk -> m_dest m = None -> m_type m = DBUS_MESSAGE_TYPE_SIGNAL ->
-  dispatch ns mk c m = Some (RDelivered l) ->
+  dispatch ns mk caps c m nfds = Some (RDelivered l) ->
   NoDup l /\
-  forall x, In x l <-> exists r, In r mk /\ r_owner r = x /\ spec_matches ns (abs_rule r) (Some c) None m = true.
+  forall x, In x l <-> (nfds = 0 \/ In x caps) /\
+                       exists r, In r mk /\ r_owner r = x /\ spec_matches ns (abs_rule r) (Some c) None m = true.
 Proof. exact broadcast_delivery. Qed.
 Print Assumptions C07_broadcast_delivery.
 
-Theorem C07_unicast_delivery : forall limit mk ns c m d a l,
+Theorem C07_unicast_delivery : forall limit mk ns caps c m nfds d a l,
   reachable limit mk -> m_dest m = Some d -> bytes_eqb d S_org_freedesktop_DBus = false -> owner_of ns d = Some a ->
-  dispatch ns mk c m = Some (RDelivered l) ->
-  valid_type (m_type m) = true /\ NoDup l /\ In a l /\
-  forall x, x <> a -> (In x l <-> exists r, In r mk /\ r_owner r = x /\ spec_matches ns (abs_rule r) (Some c) (Some a) m = true).
+  dispatch ns mk caps c m nfds = Some (RDelivered l) ->
+  valid_type (m_type m) = true /\ (nfds = 0 \/ In a caps) /\ NoDup l /\ In a l /\
+  forall x, x <> a -> (In x l <-> (nfds = 0 \/ In x caps) /\
+                                  exists r, In r mk /\ r_owner r = x /\ spec_matches ns (abs_rule r) (Some c) (Some a) m = true).
 Proof. exact unicast_delivery. Qed.
 Print Assumptions C07_unicast_delivery.
 
@@ -63,7 +66,7 @@ Proof. exact no_fault. Qed.
 Print Assumptions C07_no_fault.
 
 (* ... and therefore dispatching any message in any state of the matchmaker never faults *)
-Theorem C07_dispatch_total : forall ns mk c m, dispatch ns mk c m <> None.
+Theorem C07_dispatch_total : forall ns mk caps c m nfds, dispatch ns mk caps c m nfds <> None.
 Proof. exact dispatch_total. Qed.
 Print Assumptions C07_dispatch_total.
 
@@ -239,11 +242,17 @@ Proof. vm_compute. reflexivity. Qed.
 Example ex_match_no : match parse_rule 1 T_good with POk r => rule_matches [] r None None (M_sig [AStr [120]]) false = Some false | _ => False end.
 Proof. vm_compute. reflexivity. Qed.
 Example ex_reachable : exists m, reachable 512 m /\ m <> [] /\
-  dispatch [] m 9 (M_sig [AStr [47;97;47;98]]) = Some (RDelivered [1]).
+  dispatch [] m [] 9 (M_sig [AStr [47;97;47;98]]) 0 = Some (RDelivered [1]).
 Proof.
   exists (fst (handle_add_match 512 true (fst (handle_add_match 512 true [] 1 T_good)) 1 T_good)).
   split; [apply reach_add, reach_add, reach_empty|]. vm_compute. split; [discriminate | reflexivity].
 Qed.
+(* fds: listener 1 did not negotiate fd passing and is skipped, listener 2 (whose rule was added later) still
+   gets the broadcast *)
+Example ex_fds_skip :
+  dispatch [] (fst (handle_add_match 512 true (fst (handle_add_match 512 true [] 1 T_good)) 2 T_good)) [2; 9] 9
+           (M_sig [AStr [47;97;47;98]; AOther]) 1 = Some (RDelivered [2]).
+Proof. vm_compute. reflexivity. Qed.
 Example ex_tokenize_hyp : no_nul T_good /\ bs_sensitive SItemStart T_good = false /\ snd (spec_tokens T_good) = SEndOk /\
   (length (fst (spec_tokens T_good)) < MAX_RULE_TOKENS)%nat /\ forallb item_in_scope (fst (spec_tokens T_good)) = true.
 Proof.
